@@ -369,6 +369,50 @@ pub fn run(cfg: &Config) -> i32 {
             }
         }
     }
+    // bases the corpus does not contain: messages generated from the independent layout table (maximal
+    // and random shapes: every option, optional fields, repeated sequences), each with every single mutation
+    {
+        use crate::spec::layout::{self, Gen, GenOptions};
+        use crate::spec::{self, Canon};
+        for lay in &layout::layouts() {
+            // (shape seed, options, forced option): the maximal message and one maximal message per documented
+            // option are independent of VERIF_SEED (so that every tag of every type meets every mutation on
+            // every run); random shapes vary with the seed
+            let mut shapes: Vec<(u64, u64, GenOptions, Option<(String, String)>, bool)> = Vec::new();
+            shapes.push((0, 0, GenOptions { optional_per_mille: 1000, max_repeat: 2, max_seq: 2, maximal: true, minimal: false }, None, true));
+            for (k, (num, opt)) in layout::option_pairs(lay).into_iter().enumerate() {
+                shapes.push((0, 1 + k as u64, GenOptions { optional_per_mille: 1000, max_repeat: 1, max_seq: 1, maximal: true, minimal: false }, Some((num, opt)), false));
+            }
+            for vi in 0..cfg.tier.pick(3u64, 24u64) {
+                shapes.push((cfg.seed, 100 + vi, GenOptions { optional_per_mille: [500, 800, 250][(vi % 3) as usize], max_repeat: 2, max_seq: [1, 2, 3][(vi % 3) as usize], maximal: false, minimal: false }, None, false));
+            }
+            for (sd, vi, opt, force, full) in shapes {
+                let mut rr = Rng::new(sd, &format!("c01-gen:{}", lay.mt), vi);
+                let force_include = force.as_ref().map(|f| f.0.clone());
+                let mut g = Gen { r: &mut rr, counter: vi as usize * 60, mt: lay.mt, opt, force_option: force, force_include };
+                let gf = g.message(lay);
+                let mut base: Vec<tok::Token> = Vec::new();
+                let mut ok = true;
+                for f in &gf {
+                    match spec::canonical(&f.tag, &f.content) {
+                        Canon::Ok(c) => base.push(tok::Token { tag: f.tag.clone(), content: c }),
+                        _ => ok = false,
+                    }
+                }
+                if !ok {
+                    continue;
+                }
+                if lay.mt == "204" && base.len() >= 2 && base[1].tag == "19" {
+                    base.swap(0, 1); // the order the library itself uses (the documented order is a known C03 finding)
+                }
+                cases.push((format!("MT{}/generated-base", lay.mt), Case::Block4 { mt: lay.mt.to_string(), text: tok::render(&base, false, false), must_reject: None }));
+                let mut r2 = Rng::new(sd, &format!("c01-gen-mut:{}", lay.mt), vi);
+                for m in mutate::single_mutations(&base, &pool, &mut r2, full) {
+                    cases.push((format!("MT{}/gen:{}", lay.mt, m.kind), Case::Block4 { mt: lay.mt.to_string(), text: tok::render(&m.fields, false, false), must_reject: None }));
+                }
+            }
+        }
+    }
     let ncases = cases.len() as u64;
     let total = par_for(cfg, ncases, |i, l| {
         let (lab, case) = &cases[i as usize];
